@@ -15,7 +15,7 @@ func init() {
 	register(&CheckDef{
 		ID:    "C17",
 		Level: "exploration",
-		Rule:  "part 1 (crash consistency of the journal protocol): a PagerSim journal transaction (every shape: single/multi segment, synced/no-sync, DELETE/TRUNCATE/PERSIST with stale tails from earlier transactions, grow/shrink) is interrupted before EVERY file operation; each interruption image, plus variants in which the last un-synced journal write is torn at several byte-length classes or the header is zeroed/truncated, is opened by a fresh Store and the database bytes and size must equal the pre-transaction image (or the post image once the commit point has passed). part 2 (WAL scanning): the real litefs.WALReader and the checkpoint performed by Store.Open are compared with an independent scanner written from SQLite's file-format document on PagerSim-produced logs, on mutations of them (bit flips, truncation, zeroed regions, swapped salts, altered page numbers, spliced generations) and on random bytes: same accepted frame sequence, only frames up to the last commit mark reach the database. part 3: arbitrary bytes as journal or WAL never panic, and no page beyond the database is written (page-write hook). evaluations = images/byte strings decided; distinct = distinct (part, shape/mutation kind, outcome class) tuples; non-trivial = run with >= 5 decided cases",
+		Rule:  "part 1 (crash consistency of the journal protocol): a PagerSim journal transaction (every shape: single/multi segment, synced/no-sync, DELETE/TRUNCATE/PERSIST with stale tails from earlier transactions, grow/shrink, and shrinking transactions that journal every page with the database file already cut to the new size while the journal is hot) is interrupted before EVERY file operation; each interruption image, plus variants in which the last un-synced journal write is torn at several byte-length classes or the header is zeroed/truncated, is opened by a fresh Store and the database bytes and size must equal the pre-transaction image (or the post image once the commit point has passed). part 2 (WAL scanning): the real litefs.WALReader and the checkpoint performed by Store.Open are compared with an independent scanner written from SQLite's file-format document on PagerSim-produced logs, on mutations of them (bit flips, truncation, zeroed regions, swapped salts, altered page numbers, spliced generations) and on random bytes: same accepted frame sequence, only frames up to the last commit mark reach the database. part 3: arbitrary bytes as journal or WAL never panic, and no page beyond the database is written (page-write hook). evaluations = images/byte strings decided; distinct = distinct (part, shape/mutation kind, outcome class) tuples; non-trivial = run with >= 5 decided cases",
 		Run:   runC17,
 		NonTrivial: func(r *Run) bool {
 			return r.Stats["c17.decided"] >= 5
@@ -186,6 +186,23 @@ func c17Journal(r *Run) {
 			prog.NewSize = h.ref.N()
 		}
 	}
+	// Cut focus: a shrinking transaction that journals every page; the crash
+	// images get a variant in which the database file has already been cut to
+	// the new size while the journal is still hot (the order in which SQLite
+	// before 3.8 worked, and in any case bytes a restart can meet): playback
+	// has to restore the file to the size and content the journal records.
+	cutFocus := !staleFocus && h.ref.N() >= 4 && t.Chance(1, 5)
+	r.Cfg["cut_focus"] = cutFocus
+	if cutFocus {
+		n := h.ref.N()
+		prog = TxProgram{NewSize: uint32(t.Range(1, int(n)-1)), Outcome: OutCommit}
+		for pg := uint32(1); pg <= n; pg++ {
+			prog.Modify = append(prog.Modify, pg)
+		}
+		if t.Chance(1, 2) {
+			prog.SpillAt = []int{t.Range(1, int(n)-1)}
+		}
+	}
 	if staleFocus {
 		// one record (page 1 only) or two: the old second header at the next
 		// sector boundary survives in the first case
@@ -245,6 +262,21 @@ func c17Journal(r *Run) {
 	}
 	for i, img := range cr.imgs {
 		check(img.dir, img.label, img.afterCommit)
+		if cutFocus && !img.afterCommit && !r.Failed() {
+			// the file already cut, if the interrupted transaction had got as far
+			// as rewriting page 1 and the journal is complete (synced)
+			dbp := filepath.Join(img.dir, "dbs", h.name, "database")
+			if b, err := os.ReadFile(dbp); err == nil && uint32(len(b)) >= h.pageSize && lastAt[i] == nil {
+				if hh, _, ok := decodeDBHeader(b[:h.pageSize]); ok && hh.SizePages == prog.NewSize && prog.NewSize < before.N() {
+					vdir := filepath.Join(r.Dir, fmt.Sprintf("cut-%d", i))
+					if err := CopyTree(img.dir, vdir); err == nil {
+						_ = os.Truncate(filepath.Join(vdir, "dbs", h.name, "database"), int64(prog.NewSize)*int64(h.pageSize))
+						check(vdir, img.label+"+file-cut", false)
+						r.Count("c17.cut-variant")
+					}
+				}
+			}
+		}
 		// torn variants of the last un-synced journal write
 		lw := lastAt[i]
 		if lw == nil || img.afterCommit || r.Failed() || prog.NoSync {
